@@ -16,6 +16,11 @@ MODULE = 'mc.props.c12'
 BETWEEN = re.compile(r"^between '(.+)' and '(.+)'$")
 
 
+def optimized_specs(tier):
+    """every component alone, once more under python -O (assert statements stripped)"""
+    return [{'names': [c], 'wrapper': 'a'} for c in alphabet.COMPONENTS if c not in globals().get('EXCLUDED', ())]
+
+
 def decl_specs(tier):
     specs = []
     for names, w in alphabet.declarations(tier):
@@ -327,6 +332,10 @@ def check_decl(dc, st, tier, only=None):
 
 def run(tier):
     st = ea.run(MODULE, tier)
+    from mc import ea_o
+    so = ea_o.run(MODULE, tier)         # every component alone once more under python -O (assert statements stripped)
+    st.merge(so)
+    st.notes.extend(so.notes)
     LADDER_NOTE = '; plus the shared size and structure ladders (mc/alphabet.py boundary_specs / structure_specs): lengths and counts 5, 8, 9, 16, 17, 32, 33, 64, 65, 128, 129, 255, 256, 257, 1024, 1025, 4096, 4097, 8192, 8193 behind one-, two- and three-byte length fields with their exact encodings (and the same cut short), constant counts and sizes 15..257 first in a packet, far positions (holes of 255..8192 bytes), chains of 4..8 references, lists of lists of lists, nine-byte integers, bit runs of 40/72/80 bits, declarations of 24 components and runs of 17..40 fixed fields, holders whose options differ from the held class, the nested class alone on the field-by-field loop'
     cov = ea.coverage(st, 'every declaration of the alphabet (x wrappers, generic and generated, vectorised runs, depth-2 nesting); unpack: every input of '
                           'the enumeration that the reference rejects; pack: for the first distinct accepted values, every leaf replaced by each ill value '
@@ -334,12 +343,17 @@ def run(tier):
                           'states = distinct (declaration, phase, outcome, blamed field, offset or ill value)',
                       {'pack_failures_checked': st.n.get('pack_failures', 0), 'unpack_failures_checked': st.n.get('rejected', 0)})
     cov['rule'] += LADDER_NOTE
+    cov['rule'] += '; every component alone once more in child interpreters started with -O'
+    cov['programs_under_python_O'] = st.n.get('programs_under_O', 0)
     return {'stats': st, 'coverage': cov,
             'assumptions': ['outer stack entries are compared by field name and class only (the statement fixes the offset of the innermost entry)',
                             'on pack of a repeated field both the start of the field and of the failing element are accepted']}
 
 
 def replay(case):
+    if case.get('optimized') and sys.flags.optimize < 1:
+        from mc import ea_o
+        return ea_o.replay(MODULE, case)
     if case.get('spec', {}).get('special') == 'check_recursive':
         from mc.common import Stats
         st = Stats()
